@@ -83,6 +83,30 @@ def run(ctx: Ctx, rep: Report) -> None:
             key='grad-temps',
         )
     rep.floor('SIBTEMP', n, 2, 'gate classes writing the gradient twice')
+    # an angle is recovered from (imag, real) with arctan2: np.arctan of a
+    # quotient needs a hand-written quadrant correction, which is where the
+    # boundary cases (zero imaginary part, zero or negative-zero real part)
+    # get lost - U1Gate.optimize returned the worst angle for env[1,1] = -1
+    rep.count()
+    quot = [
+        (path, c.lineno, norm(c))
+        for path, mod in sorted(ctx.index.by_path.items())
+        if path.startswith('bqskit/ir/gates/')
+        for c in ast.walk(mod.tree)
+        if isinstance(c, ast.Call) and norm(c.func) in (
+            'np.arctan', 'math.atan', 'numpy.arctan')
+        and c.args and isinstance(c.args[0], ast.BinOp)
+        and isinstance(c.args[0].op, ast.Div)]
+    rep.check(
+        not quot, 'ATAN', 'angles from (imag, real)',
+        quot[0][0] if quot else 'bqskit/ir/gates/', quot[0][1] if quot else 0,
+        'no gate recovers an angle with arctan(b / a)',
+        '; '.join(f'{p}:{ln} `{t}`' for p, ln, t in quot[:3])
+        + ' recovers an angle from a quotient: the quadrant has to be '
+        'patched by hand and the boundary cases (b == 0 with a < 0, a == 0) '
+        'come out wrong; np.arctan2(b, a) is the total function',
+        key=';'.join(t for _p, _l, t in quot[:3]) or 'none',
+    )
     # composed gates adjoin (not transpose) what they hand to their inner gate
     from ..rules.adjoint import rule_adjoint
     rule_adjoint(ctx, rep, ('bqskit/ir/gates/',), 2)
